@@ -275,26 +275,44 @@ where
     eval(rep, m, "honest", &h.bytes, &ctx, true, &acc, log);
 
     // ---------------------------------------------------------------- 1. byte alterations, stratified over the wire fields
-    let per_field = if thorough { 0 } else { 200 };
+    // two base proofs: the default 128 slots, and one with a non-default security parameter whose alterations are
+    // confined to the slots (and opened scalars) beyond the first 128 -- a verifier that stops at the default
+    // parameter never looks at those
+    let h_hi = honest::<G>(seed, "hi", keys, "a1024", x, &label, Some(if thorough { 256 } else { 141 }), 0);
+    eval(rep, m, "honest-hi", &h_hi.bytes, &ctx, true, &acc, log);
+    let (mut n_positions, mut n_modelled) = (0usize, 0usize);
+    for (bi, hb) in [&h, &h_hi].into_iter().enumerate() {
+    let ns = parse_wire(&hb.bytes).sp;
+    let lo = if bi == 0 { 0 } else { 128 };
+    let base_scalars = 40 + ns * slot_size;
+    let per_field = if thorough { 0 } else if bi == 0 { 200 } else { 80 };
     let mut positions: Vec<(usize, &str)> = vec![];
-    for p in 0..32 { positions.push((p, "seed")); }
-    for p in 32..40 { positions.push((p, "sizes")); }
+    if bi == 0 {
+        for p in 0..32 { positions.push((p, "seed")); }
+        for p in 32..40 { positions.push((p, "sizes")); }
+    }
     if thorough {
-        for i in 0..128 {
+        for i in lo..ns {
             let o = 40 + i * slot_size;
             for p in o..o + psize { positions.push((p, "commitment")); }
             for p in o + psize..o + psize + enc { positions.push((p, "enc_x_r")); }
             for p in o + psize + enc..o + slot_size { positions.push((p, "enc_r")); }
         }
-        for p in base_scalars..h.bytes.len() { positions.push((p, "open_scalar")); }
+        for p in base_scalars + lo * 32..hb.bytes.len() { positions.push((p, "open_scalar")); }
     } else {
         for _ in 0..per_field {
-            let i = (r.next_u32() % 128) as usize;
+            let i = lo + (r.next_u32() as usize % (ns - lo));
             let o = 40 + i * slot_size;
             positions.push((o + (r.next_u32() as usize % psize), "commitment"));
             positions.push((o + psize + (r.next_u32() as usize % enc), "enc_x_r"));
             positions.push((o + psize + enc + (r.next_u32() as usize % enc), "enc_r"));
-            positions.push((base_scalars + (r.next_u32() as usize % (128 * 32)), "open_scalar"));
+            positions.push((base_scalars + lo * 32 + (r.next_u32() as usize % ((ns - lo) * 32)), "open_scalar"));
+        }
+        if bi == 1 {
+            // the very last slot and the very last opened scalar
+            positions.push((40 + (ns - 1) * slot_size, "commitment"));
+            positions.push((hb.bytes.len() - 1, "open_scalar"));
+            positions.push((hb.bytes.len() - 32, "open_scalar"));
         }
     }
     // which of them also go through the model (model evaluation is slower)
@@ -312,15 +330,15 @@ where
         let field: &str = *field;
         let k = { let e = seen_by_field.entry(field).or_default(); *e += 1; *e - 1 };
         let to_model = k % stride(field, count_by_field[field]) == 0 && *budget.entry(field).or_default() < quota(field);
-        let old = h.bytes[*pos];
+        let old = hb.bytes[*pos];
         let mut rnd = (r.next_u32() & 0xff) as u8;
         if rnd == old || rnd == old.wrapping_add(1) { rnd = old.wrapping_add(2 + (rnd & 0x3f)); }
         for (j, newb) in [old.wrapping_add(1), rnd].into_iter().enumerate() {
             if to_model && j == (k / stride(field, count_by_field[field])) % 2 {
                 *budget.get_mut(field).unwrap() += 1;
-                let mut b = h.bytes.clone();
+                let mut b = hb.bytes.clone();
                 b[*pos] = newb;
-                eval(rep, m, &format!("alter-{field}:pos={pos}:{old:02x}->{newb:02x}"), &b, &ctx, true, &Expect::Reject, log);
+                eval(rep, m, &format!("alter{}-{field}:pos={pos}:{old:02x}->{newb:02x}", if bi == 0 { "" } else { "-hi" }), &b, &ctx, true, &Expect::Reject, log);
             } else {
                 real_only.push((*pos, field, newb));
             }
@@ -331,7 +349,7 @@ where
     let chunks: Vec<&[(usize, &str, u8)]> = real_only.chunks(((real_only.len() + nthreads - 1) / nthreads.max(1)).max(1)).collect();
     let results: Vec<Vec<(usize, String, u8, String, String, String)>> = std::thread::scope(|sc| {
         let hs: Vec<_> = chunks.iter().map(|ch| {
-            let (bytes, q, label) = (&h.bytes, &h.q, &label);
+            let (bytes, q, label) = (&hb.bytes, &hb.q, &label);
             sc.spawn(move || {
                 let mut out = vec![];
                 let mut b = bytes.clone();
@@ -356,10 +374,13 @@ where
         }).collect();
         hs.into_iter().map(|h| { let (n, o) = h.join().unwrap(); rep.n_eval += n as u64; rep.n_nontrivial += n as u64; o }).collect()
     });
-    for (_, f, _) in &real_only { rep.kind(&format!("{cv}-alter-{f}")); }
+    for (_, f, _) in &real_only { rep.kind(&format!("{cv}-alter{}-{f}", if bi == 0 { "" } else { "-hi" })); }
     for (pos, field, newb, fb, v, d) in results.into_iter().flatten() {
         rep.oracle.push(format!("altered byte accepted or panicked: curve={cv} field={field} pos={pos} new={newb:02x} from_bytes={fb} verify={v} decrypt=[{d}] :: \
-            base proof = honest(seed={seed}, stream c10-honest-{cv}-base, key a1024, x={}, label={})", xhex::<G>(&x), hx(&label)));
+            base proof = honest(seed={seed}, stream c10-honest-{cv}-{}, key a1024, x={}, label={}, slots={ns})", if bi == 0 { "base" } else { "hi" }, xhex::<G>(&x), hx(&label)));
+    }
+    n_positions += positions.len();
+    n_modelled += budget.values().sum::<usize>();
     }
 
     // ---------------------------------------------------------------- 2. context substitutions
@@ -569,7 +590,7 @@ where
     }
     if rep.samples.len() < 6 {
         rep.samples.push(format!("curve={cv}: base proof {} bytes (x={}, label={}), {} byte alterations ({} through the model)",
-            h.bytes.len(), xhex::<G>(&x), hx(&label), positions.len() * 2, budget.values().sum::<usize>()));
+            h.bytes.len(), xhex::<G>(&x), hx(&label), n_positions * 2, n_modelled));
     }
 }
 
